@@ -99,9 +99,7 @@ class Ob:
             return type(v)(self.eval_val(m, x, depth + 1) for x in v)
         if isinstance(v, (int, str, bool, float, type(None))):
             return v
-        for key in ('_mpf_', '_mpc_', '_mpi_'):
-            pass
-        return repr(v)[:80]
+        return '<%s object>' % type(v).__name__
 
     def prove(self, outs, good, good_raise=None):
         """outs: outcomes of run().  good(value, state) -> z3 Bool that must hold on every NORMAL
@@ -119,18 +117,20 @@ class Ob:
                     g = good_raise(val, st)
             else:
                 raise HarnessError('unexpected outcome kind %r' % kind)
-            if isinstance(g, bool):
-                g = z3.BoolVal(g)
-            if isinstance(g, SBool):
-                g = g.t
-            r, m = self.check(st.pc, z3.Not(g))
-            if r == 'sat':
-                res.update(status='violated', model=self.model_values(m),
-                           detail=('raised %r' % (val,)) if kind == RAISE else 'symbolic result under model: %s' % (self.eval_val(m, val),))
-                return res
-            if r != 'unsat':
-                res.update(status='inconclusive', detail='solver %s on final query' % r)
-                return res
+            goals = list(g) if isinstance(g, (list, tuple)) else [g]     # independent goals are discharged by separate queries
+            for g in goals:
+                if isinstance(g, bool):
+                    g = z3.BoolVal(g)
+                if isinstance(g, SBool):
+                    g = g.t
+                r, m = self.check(st.pc, z3.Not(g))
+                if r == 'sat':
+                    res.update(status='violated', model=self.model_values(m),
+                               detail=('raised %r' % (val,)) if kind == RAISE else 'symbolic result under model: %s' % (self.eval_val(m, val),))
+                    return res
+                if r != 'unsat':
+                    res.update(status='inconclusive', detail='solver %s on final query' % r)
+                    return res
             if not reach:
                 r2, m2 = self.check(st.pc, z3.BoolVal(True))
                 if r2 == 'sat':
